@@ -40,7 +40,7 @@ pub fn gen(ch: &mut Chooser, max_len: usize) -> Case {
     let lang = *ch.pick("lang", &ALL_LANGS);
     // quick tier: the companion dimension for words of up to two tokens (the three-token words run without it)
     // (thorough: all five forms up to three tokens, the two plain-text forms for the four-token words)
-    let companion = if len <= 2 || (max_len >= 4 && len <= 3) { ch.choose("companion_line_doc", 5) } else if max_len >= 4 { ch.choose("companion_line_doc", 3) } else { 0 };
+    let companion = if len <= 2 || (max_len >= 4 && len <= 3) { ch.choose("companion_line_doc", 6) } else if max_len >= 4 { ch.choose("companion_line_doc", 3) } else { 0 };
     // the decorated programs for the shortest words (one token in quick, up to two in thorough)
     let decor = if len == 1 || (max_len >= 4 && len <= 2) { ch.choose("item_decorators", DECORS.len()) } else { 0 };
     Case { word, spaced, syntax, position, lang, companion, decor }
@@ -189,6 +189,8 @@ pub fn check_case(c: &Case, choices: &[u32], acc: &mut Acc) {
             2 => vec![doc, plain],
             3 => vec![doc, Doc::Line(String::new())],
             4 => vec![Doc::Line(String::new()), doc],
+            // the same plain line twice after it
+            5 => vec![doc, plain.clone(), plain],
             _ => vec![doc],
         },
         c.decor,
@@ -266,6 +268,15 @@ pub fn check_case(c: &Case, choices: &[u32], acc: &mut Acc) {
             // backends that write docs as line comments have nothing to escape: every line of the doc is there verbatim
             if matches!(c.lang, Lang::Scala | Lang::Swift | Lang::Go | Lang::Kotlin) && code == base {
                 let all: String = comments.join("\n");
+                // (the companion line as often as it was written)
+                let companion_lines = match c.companion { 1 | 2 => 1, 5 => 2, _ => 0 };
+                if all.matches("plain companion line").count() != companion_lines {
+                    okk = false;
+                    acc.vios.add(Violation {
+                        sig: format!("C15|{}|doc-line-not-reproduced-verbatim|{shape}|companion-lines", c.lang.name()),
+                        detail: detail(json!({"doc_line": "plain companion line", "written": companion_lines, "found": all.matches("plain companion line").count(), "comments": comments})),
+                    });
+                }
                 for line in payload(c).split('\n').map(|l| l.trim()).filter(|l| !l.is_empty()) {
                     if !all.contains(line) {
                         okk = false;
@@ -328,7 +339,7 @@ pub fn run(args: &[String]) -> i32 {
         report::threads(),
         u64::MAX,
     );
-    merge(&mut rep, "doc_words", accs, &stats, json!({"alphabet": TOKEN_NAMES, "max_word_length": max_len, "separators": ["none", "space"], "companion_doc": ["none", "one-line /// before", "one-line /// after", "empty /// line after", "empty /// line before"], "rust_syntaxes": SYNTAXES, "positions": POSITIONS, "item_decorators": DECORS, "item_decorators_for_words_up_to": if max_len >= 4 { 2 } else { 1 }, "languages": 6}));
+    merge(&mut rep, "doc_words", accs, &stats, json!({"alphabet": TOKEN_NAMES, "max_word_length": max_len, "separators": ["none", "space"], "companion_doc": ["none", "one-line /// before", "one-line /// after", "empty /// line after", "empty /// line before", "the same one-line /// twice after"], "rust_syntaxes": SYNTAXES, "positions": POSITIONS, "item_decorators": DECORS, "item_decorators_for_words_up_to": if max_len >= 4 { 2 } else { 1 }, "languages": 6}));
     require_nonvacuous(&mut rep);
     rep.cov("rule", json!("every word up to the stated length over the doc-token alphabet, joined with or without spaces, wrapped in sentinels DOCB7/DOCE7, written in each Rust doc syntax that can express it, attached to each documentable position, for each language; oracle: the code token stream (comments and docstrings removed) of the output equals that of the same program without docs, tokenizing never ends inside an open comment/string, and both sentinels occur inside comment tokens. non-trivial = the word contains a token other than plain text."));
     rep.assume("the per-language tokenizers of mc/src/extract/lex.rs decide what is a comment / docstring");
